@@ -313,7 +313,7 @@ pub fn run_case(sub: u64, acc: &mut Acc) {
     // (also with multi-line mode requested, as long as the pattern cannot match a line terminator:
     // the searcher then works line by line under a multi-line configuration)
     let really_ml = case.cfg.multi_line && build_matcher(&case).map(|m| searcher_is_multi_line(&case, &m)).unwrap_or(true);
-    if case.cfg.bin == Bin::None && !case.cfg.passthru && !really_ml && case.cfg.term == Term::Lf {
+    if case.cfg.bin == Bin::None && !really_ml && case.cfg.term == Term::Lf {
         printer_leg(sub, &case, &mut rng, acc);
     }
 }
@@ -405,7 +405,8 @@ fn printer_leg(sub: u64, case: &Case, rng: &mut Rng, acc: &mut Acc) {
         let expect: Vec<u64> = if n == 0 {
             vec![]
         } else if (n as usize) <= match_lns.len() {
-            let cutoff = match_lns[n as usize - 1] + c.cfg.a as u64;
+            // (passthru: every other line is context, and nothing is owed after the N-th match)
+            let cutoff = match_lns[n as usize - 1] + if c.cfg.passthru { 0 } else { c.cfg.a as u64 };
             all_lns.iter().cloned().filter(|&l| l <= cutoff).collect()
         } else {
             all_lns.clone()
